@@ -87,10 +87,13 @@ CallEv == /\ At("call") /\ Line.op = "ev" /\ pend[Line.t] = Idle /\ Step
              /\ trigAvail' = trigAvail + (IF direct THEN 1 ELSE 0)
              /\ trigTotal' = trigTotal + (IF direct THEN 1 ELSE 0)
           /\ UNCHANGED <<now, arrived, ndeliv, stopCalled, stopRet, stopPre, ready, alive, nspawn, started, cbMark, viol>>
-\* canonical placement of an arrival point: right before the own return, a clock tick, a batch, or a hint
-LinOK == l <= Len(Tr) /\ \/ (Line.e \in {"ret", "exc"} /\ pend[Line.t].op = "ev" /\ ~pend[Line.t].done)
-                         \/ Line.e \in {"tick", "cbatch", "ready", "quiescent"}
-LinEv(t) == /\ LinOK /\ pend[t].op = "ev" /\ ~pend[t].done
+\* canonical placement of an arrival point: right before a return that needs its own arrival point (another thread's
+\* event may have arrived before that one), a clock tick (arrival times only change there), a hint, a rest point,
+\* or a batch in which the event is the next one expected
+LinOK(t) == l <= Len(Tr) /\ \/ (Line.e \in {"ret", "exc"} /\ pend[Line.t].op = "ev" /\ ~pend[Line.t].done)
+                            \/ Line.e \in {"tick", "ready", "quiescent"}
+                            \/ (Line.e = "cbatch" /\ Len(Und) < Len(Line.ks) /\ Line.ks[Len(Und) + 1] = pend[t].k)
+LinEv(t) == /\ pend[t].op = "ev" /\ ~pend[t].done /\ LinOK(t)
             /\ pend' = [pend EXCEPT ![t].done = TRUE]
             /\ arrived' = Append(arrived, [k |-> pend[t].k, at |-> now, pre |-> ~ready])
             /\ viol' = viol \cup If(/\ H.timed /\ ~stopCalled /\ Und # <<>> /\ now > Last(Und).at + H.iv /\ ~D8Excuse,
